@@ -41,9 +41,21 @@ impl Bits {
 
 // ------------------------------------------------------------------ names
 
-pub const DIM_NAMES: &[&str] = &["SEC", "DPT", "CTR", "Dim3", "Région", "Org Unit", "D6", "D7"];
+/// the last dimension name and the last attribute name are longer than 127 bytes (their length
+/// prefix needs two LEB128 bytes)
+pub const DIM_NAMES: &[&str] = &[
+    "SEC",
+    "DPT",
+    "CTR",
+    "Dim3",
+    "Région",
+    "Org Unit",
+    "D6",
+    "A-dimension-whose-name-is-longer-than-one-hundred-and-twenty-seven-bytes-so-that-its-length-prefix-takes-two-bytes-on-the-wire-0123456789-0123456789",
+];
 pub const ATTR_NAMES: &[&str] = &[
-    "LOW", "MID", "TOP", "FIN", "HR", "MKG", "Low Secret", "é", "日本", "x9", "R&D?", "a10", "a11", "a12", "a13", "a14",
+    "LOW", "MID", "TOP", "FIN", "HR", "MKG", "Low Secret", "é", "日本", "x9", "R&D?", "a10", "a11", "a12", "a13",
+    "an-attribute-whose-name-is-longer-than-one-hundred-and-twenty-seven-bytes-so-that-its-length-prefix-takes-two-bytes-on-the-wire-0123456789-0123456789",
 ];
 /// attribute names that may appear in a parsed policy string (no metacharacters)
 pub fn parse_safe(name: &str) -> bool {
